@@ -8,13 +8,19 @@
  *
  *   RRSS_VERIF_CLOCK_OFFSET_S   added to the real-time clocks (may be negative)
  *   RRSS_VERIF_CLOCK_STEP_MS    every reading advances all clocks by this much
+ *   RRSS_VERIF_CLOCK_REPORT     file to which the number of readings is written
+ *                               when the process ends (how much simulated time
+ *                               the run covered is readings x step)
  *
  * With neither variable set the shim changes nothing. Monotonic clocks stay
  * monotonic (offset and steps only ever grow). Sleeping is not intercepted.
  */
 #define _GNU_SOURCE
 #include <dlfcn.h>
+#include <fcntl.h>
+#include <stdio.h>
 #include <stdlib.h>
+#include <unistd.h>
 #include <sys/time.h>
 #include <time.h>
 
@@ -78,4 +84,15 @@ time_t time(time_t *out) {
     if (clock_gettime(CLOCK_REALTIME, &ts) != 0) return (time_t)-1;
     if (out) *out = ts.tv_sec;
     return ts.tv_sec;
+}
+
+__attribute__((destructor)) static void report(void) {
+    const char *path = getenv("RRSS_VERIF_CLOCK_REPORT");
+    if (!path) return;
+    int fd = open(path, O_WRONLY | O_CREAT | O_TRUNC, 0600);
+    if (fd < 0) return;
+    char buf[32];
+    int n = snprintf(buf, sizeof buf, "%lld\n", readings);
+    if (n > 0 && write(fd, buf, (size_t)n) < 0) { /* nothing to be done */ }
+    close(fd);
 }
